@@ -630,7 +630,7 @@ fn do_op(h: &mut Hasher, m: &M, data: &[u8], op: &J, scratch: &str, sid: &str) -
             o.st("text", &format!("{:?}", h));
         }
         // ---- RustCrypto traits (feature traits-preview)
-        "t_reset" | "t_fixed" | "t_fixed_reset" | "t_xof" | "t_xof_reset" | "t_mac_finalize" => {
+        "t_reset" | "t_fixed" | "t_fixed_reset" | "t_xof" | "t_xof_reset" | "t_mac_finalize" | "t_xof_into" | "t_xof_reset_into" => {
             #[cfg(feature = "traits")]
             {
                 use blake3::traits::digest;
@@ -654,6 +654,17 @@ fn do_op(h: &mut Hasher, m: &M, data: &[u8], op: &J, scratch: &str, sid: &str) -
                         let mut rd = digest::ExtendableOutputReset::finalize_xof_reset(h);
                         let mut buf = vec![0u8; op.usize("n")];
                         digest::XofReader::read(&mut rd, &mut buf);
+                        o.hx("hex", &buf);
+                    }
+                    // the digest crate's provided methods (an impl may override them)
+                    "t_xof_into" => {
+                        let mut buf = vec![0u8; op.usize("n")];
+                        digest::ExtendableOutput::finalize_xof_into(h.clone(), &mut buf);
+                        o.hx("hex", &buf);
+                    }
+                    "t_xof_reset_into" => {
+                        let mut buf = vec![0u8; op.usize("n")];
+                        digest::ExtendableOutputReset::finalize_xof_reset_into(h, &mut buf);
                         o.hx("hex", &buf);
                     }
                     "t_mac_finalize" => {
@@ -779,6 +790,19 @@ fn k_xof(sc: &J, r: &R) {
                     o.hx("hex", &buf);
                     o.b("unsupported", true);
                 }
+            }
+            "seek_relative" => {
+                // provided method of std::io::Seek (an impl may override it): == seek(Current(v)) without the position
+                let v = op.get("v").as_i128().unwrap_or(0);
+                match rd.seek_relative(i64::try_from(v).expect("driver: offset out of range")) {
+                    Ok(()) => {
+                        o.raw("err", "null");
+                    }
+                    Err(e) => {
+                        o.st("err", &format!("{:?}", e.kind()));
+                    }
+                }
+                o.n("pos", rd.position());
             }
             "seek" => {
                 let v = op.get("v").as_i128().unwrap_or(0);
